@@ -180,6 +180,21 @@ def validate(wd, trace, verdict, tag):
     return events, meta, failed, skipped, res, mism
 
 
+def oracle_laws():
+    """Engine-independent sanity of the oracle: tla/sparql/MCLaws.tla evaluates algebraic laws the SPARQL algebra must satisfy on
+    Sparql.tla's Eval for every dataset of a small universe (ASSUME-evaluated, one TLC start).  A law that fails means the
+    specification is wrong - a tool error, never a verdict."""
+    rc_, out_, _ = vlib._tlc(os.path.join(vlib.TLA, FAMILY), "MCLaws.tla", "MCLaws.cfg", 1, 1200, env_extra={"JAVA_TOOL_OPTIONS": "-Xss512m"}, tag="c01-laws")
+    laws = {t[0]: t[1] for _tag, t in vlib._printed_tuples_any(out_, "LAW")}
+    inst = laws.pop("instances", 0)
+    bad = [k for k, v in laws.items() if v is not True]
+    if bad or len(laws) < 15:
+        import sys as _sys
+        _sys.stdout.write(out_[-3000:])
+        raise vlib.ToolError(f"Sparql.tla violates algebraic laws {bad} (or MCLaws.tla did not evaluate): the oracle is wrong, not a verdict")
+    return {"held": sorted(laws), "instances": inst}
+
+
 def run(ctx):
     t0 = time.time()
     verdict = vlib.Verdict("C01", ctx.seed, ctx.tier)
@@ -191,6 +206,9 @@ def run(ctx):
         validate(wd, os.path.join(wd, "replay.ndjson"), verdict, "replay")
         return verdict.finish()
     thorough = ctx.tier == "thorough"
+    laws = oracle_laws()
+    log(f"L1 Sparql.tla satisfies {len(laws['held'])} algebraic laws (join, union, filter scope / push-down with a failing control, GRAPH ?g, "
+        f"VALUES) on {laws['instances']} (dataset, pattern pair) instances")
     n = 10000 if thorough else 1200
     cases = gen_cases(ctx.seed, n)
     vlib.write_ndjson(os.path.join(wd, "cases.ndjson"), cases)
@@ -215,6 +233,7 @@ def run(ctx):
                    "distinct by (query text, dataset); non-trivial = accepted with a non-empty answer",
            "samples": [{"text": smp["text"], "dataset": smp["case"]["pass"]["intended"], "rows": smp["rows"]}],
            "states": res["states"], "transitions": res["states"], "traces_validated_against_impl": len(events),
+           "oracle_laws_checked": laws["held"], "oracle_law_instances": laws["instances"],
            "nonempty_answers_per_feature": feats_seen, "skipped_precondition": len(skipped), "rejected": len(failed)}
     vlib.write_evidence("C01", ctx.tier, ctx.seed, "model_checking", cov,
                         ["terms are lexical strings (Kolibrie's dictionary is untyped): numbers are recognised by their lexical form",
